@@ -239,7 +239,8 @@ def build_hierarchy(h, upto=None):
     if top.get("id") is not None:
         kwargs["id"] = top["id"]
     if top.get("sequence_type") is not None:
-        kwargs["sequence_type"] = seqtype(top["sequence_type"])
+        # "sequence_type_raw": the caller spells the type as a plain string ("chromosome") instead of the SequenceType member
+        kwargs["sequence_type"] = top["sequence_type"] if top.get("sequence_type_raw") else seqtype(top["sequence_type"])
     if top.get("sequence") is not None:
         kwargs["sequence"] = build_sequence(top["sequence"])
     cur = Parent(**kwargs)
